@@ -49,9 +49,9 @@ def check(prop, tier, seed, first_hit=False):
     for f in new:
         key = (f['clause'], json.dumps(f.get('case', {}).get('api', '')),
                json.dumps(f.get('case', {}).get('meas', '')))
-        path = _replay_path(prop, f)
-        if key in seen and shown >= 20:
+        if (key in seen and shown >= 20) or shown >= 60:
             continue
+        path = _replay_path(prop, f)
         seen.add(key)
         shown += 1
         print('VIOLATION property=%s replay=%s' % (prop, path))
